@@ -260,13 +260,20 @@ def oracle14(ctx, case, out, n_clients):
             # classify by what the waiter was blocked in when the clock had to advance after its reply was dispatched
             q = out["seq_of"][i]
             t0 = out["dispatch_time"][q]
-            why = None
+            why, others_polling = None, False
             for adv in out["clock"]:
                 if adv["from"] >= t0 and str(i) in adv["blocked"]:
                     why = adv["blocked"][str(i)]
+                    others_polling = any(v == "poll" for k, v in adv["blocked"].items() if k != str(i))
                     break
-            sig = {"poll": "waiter-in-poll-while-reply-dispatched-by-other-thread",
-                   "cond-wait": "waiter-asleep-behind-polling-thread-after-reply-dispatched"}.get(why, "waiter-late:" + str(why))
+            if why == "poll":
+                sig = "waiter-in-poll-while-reply-dispatched-by-other-thread"
+            elif why == "cond-wait" and others_polling:
+                sig = "waiter-asleep-behind-polling-thread-after-reply-dispatched"
+            elif why == "cond-wait":
+                sig = "waiter-asleep-with-nobody-polling-after-reply-dispatched"
+            else:
+                sig = "waiter-late:" + str(why)
             ctx.violation(sig, case, observed={"lateness_virtual_s": d, "blocked_in": why}, expected=0,
                           what="a waiter returned %.1f virtual seconds after its reply had been processed by another thread" % d)
 
